@@ -18,11 +18,15 @@ P = runs.P
 EIGHT = ["RandomInputHandler.number_of_root_nodes=8", "Coulomb.number_event_handlers=8"]
 PLAN_8_ATOMS = dict(cfg=P + "coulomb_atoms/power_bounded_dump.ini", sched="heap_scheduler", end="7", interval="1.3", dumps=[1, 3, 4],
                     sets=EIGHT)
+# cell configuration with several occupants in nearby cells (the order of handler assignment must survive the dump)
+PLAN_CROWDED_CELLS = dict(cfg=P + "coulomb_atoms/cell_veto.ini", sched="heap_scheduler", end="5", interval="1.1", dumps=[1, 3],
+                          sets=["RandomInputHandler.number_of_root_nodes=20", "CoulombNearby.number_event_handlers=20",
+                                "CoulombSurplus.number_event_handlers=20", "CuboidPeriodicCells.cells_per_side=3, 3, 5"])
 PLANS = {
     "quick": [dict(cfg=P + "coulomb_atoms/power_bounded_dump.ini", sched="heap_scheduler", end="80", interval="17.3", dumps=[1, 2, 4]),
               dict(cfg=P + "coulomb_atoms/power_bounded_dump.ini", sched="list_scheduler", end="60", interval="19.7", dumps=[1, 3]),
               dict(cfg=P + "dipoles/dipole_factors_inside_first.ini", sched="heap_scheduler", end="25", interval="3.3", dumps=[2, 5]),
-              PLAN_8_ATOMS],
+              PLAN_8_ATOMS, PLAN_CROWDED_CELLS],
     "thorough": [dict(cfg=P + "coulomb_atoms/power_bounded_dump.ini", sched="heap_scheduler", end="300", interval="19.7", dumps=None),
                  dict(cfg=P + "coulomb_atoms/power_bounded_dump.ini", sched="list_scheduler", end="300", interval="23.1", dumps=None),
                  dict(cfg=P + "coulomb_atoms/cell_veto.ini", sched="heap_scheduler", end="60", interval="7.7", dumps=None),
@@ -30,7 +34,8 @@ PLANS = {
                  dict(cfg=P + "dipoles/dipole_factors_inside_first.ini", sched="heap_scheduler", end="60", interval="3.3", dumps=None),
                  dict(cfg=P + "dipoles/dipole_motion.ini", sched="list_scheduler", end="40", interval="4.9", dumps=None),
                  dict(cfg=P + "water/coulomb_cell_veto_lj_cell_veto.ini", sched="heap_scheduler", end="12", interval="2.1", dumps=None),
-                 dict(PLAN_8_ATOMS, end="30", dumps=None), dict(PLAN_8_ATOMS, end="30", dumps=None, sched="list_scheduler")],
+                 dict(PLAN_8_ATOMS, end="30", dumps=None), dict(PLAN_8_ATOMS, end="30", dumps=None, sched="list_scheduler"),
+                 dict(PLAN_CROWDED_CELLS, end="9", dumps=None), dict(PLAN_CROWDED_CELLS, end="9", dumps=None, sched="list_scheduler")],
 }
 
 
@@ -72,7 +77,7 @@ def dump_resume(chk, plans, only_props):
             chk.notes.setdefault("dumps_written", {})["plan%d" % n] = k - 1
             if k == 1:
                 chk.machinery("plan %d (%s): no dump was written" % (n, p["cfg"]))
-        second = runs.record_and_validate(sc, resume_jobs)
+        second = runs.record_and_validate(sc, resume_jobs, timeout=150 if chk.tier == "quick" else 900)
         # ---- comparisons
         for n, p in enumerate(plans):
             a, nod = by["A%d" % n], by["N%d" % n]
@@ -92,6 +97,11 @@ def dump_resume(chk, plans, only_props):
                 if r["job"]["plan"] != n:
                     continue
                 k = r["job"]["dump"]
+                if r["run_rc"] == -9:
+                    if only_props is None:
+                        chk.violation("resume:hang", "plan %d (%s, %s) dump %d: the resumed run does not reach the end of the run "
+                                      "(a pending event of the dumped scheduler was lost)" % (n, p["cfg"], p["sched"], k), dict(plan=p))
+                    continue
                 if not r["status"].get("ok") and only_props is not None:
                     continue
                 if not r["status"].get("ok"):
